@@ -364,6 +364,8 @@ func CheckWrite(d vtt.Doc, variant int) (key, msg string, outcome uint64) {
 		k := "vtt.write.ref-decode"
 		if strings.Contains(e.Error(), "is not defined earlier in the file") {
 			k = "vtt.write.region-not-defined-earlier"
+		} else if strings.Contains(e.Error(), "region definition after the first cue") {
+			k = "vtt.write.region-after-first-cue"
 		}
 		return k, fmt.Sprintf("independent decoder rejects writer output %q: %v", out, e), 0
 	}
